@@ -4,4 +4,5 @@ CONSTANTS
   MaxLen = 5
   MaxOps = 2
   CountsIfndef = TRUE
+  CountsCloses = TRUE
 INVARIANT EmitC
